@@ -356,9 +356,50 @@ def gen(args) -> list:
             else:
                 k = rnd.choice([1, 2, 3, 3, 4, 5, 5, 6, 7])
                 toks = ROUND_TRIP_TOKENS[typ]
+                picked = None
+                if typ in ("LocalDate", "LocalTime", "LocalDateTime", "Instant", "AnnualDate") and rnd.random() < 0.55:
+                    # field-structured: at most one token per field kind, every combination of kinds about equally often
+                    # (uniform token draws almost never produce, say, year-of-era + era + a 12-hour clock + am/pm together)
+                    picked = []
+                    if typ != "LocalTime":
+                        if typ != "AnnualDate":
+                            yk = rnd.choice([None, "yyyy", "yyyy", "yy", "uuuu", "uuu", "uu", "u"])
+                            if typ == "Instant" and yk == "yy":
+                                yk = "yyyy"
+                            if yk:
+                                picked.append(yk)
+                            if typ != "Instant" and yk in ("yyyy", "yy") and rnd.random() < 0.6:
+                                picked.append(rnd.choice(["g", "gg"]))
+                            if typ != "Instant" and rnd.random() < 0.1:
+                                picked.append("c")
+                        mk = rnd.choice([None, "M", "MM", "MMM", "MMMM"] if typ != "Instant" else [None, "M", "MM"])
+                        if mk:
+                            picked.append(mk)
+                        dk = rnd.choice([None, "d", "dd"])
+                        if dk:
+                            picked.append(dk)
+                        if typ in ("LocalDate", "LocalDateTime") and rnd.random() < 0.12:
+                            picked.append(rnd.choice(["ddd", "dddd"]))
+                    if typ in ("LocalTime", "LocalDateTime", "Instant"):
+                        hk = rnd.choice([None, "H", "HH", "h", "hh"])
+                        if hk:
+                            picked.append(hk)
+                        if (hk in ("h", "hh") and rnd.random() < 0.7) or rnd.random() < 0.05:
+                            picked.append(rnd.choice(["t", "tt"]))
+                        for fam in (["m", "mm"], ["s", "ss"]):
+                            if rnd.random() < 0.6:
+                                picked.append(rnd.choice(fam))
+                        if rnd.random() < 0.4:
+                            kf = rnd.randint(1, 9)
+                            picked.append(rnd.choice(["", ".", ";"]) + rnd.choice(["f", "F"]) * kf)
+                    rnd.shuffle(picked)
+                    if rnd.random() < 0.3:
+                        picked.insert(rnd.randrange(len(picked) + 1), rnd.choice(["'at'", "\\h", "'T'", "'of'"]))
+                    if not picked:
+                        picked = None
                 tokens = []
-                for _i in range(k):
-                    t = rnd.choice(toks)
+                for _i in range(k if picked is None else len(picked)):
+                    t = rnd.choice(toks) if picked is None else picked[_i]
                     fuse = bool(tokens) and tokens[-1][-1].lower() == t[0].lower() and t[0].isalpha()   # "M" + "MM" would read as "MMM"
                     if tokens and t[0].isalpha() and tokens[-1][-1].isalpha() and (fuse or rnd.random() < 0.85):
                         tokens.append(rnd.choice([":", " ", "-", "/", ".", ","]) if typ != "Offset" else ":")
